@@ -55,11 +55,11 @@ Print Assumptions C14_parser_total.
 From RTP Require Import Proofs.C14_Fu Proofs.C08_H265 Base.ListX Base.Own Base.Bytes.
 Import ListNotations.
 
-(* a unit of at least MTU bytes (AddDONL off): the aggregation buffer is flushed, then at least two
+(* a unit of more than MTU bytes (AddDONL off): the aggregation buffer is flushed, then at least two
    FUs follow whose chunks concatenate to the unit's body (h5fu_rel: S on the first only, E on the
    last only, the unit's type on all, the unit's F / layer id / TID in the payload header) *)
 Theorem C14_fu_lossless_partial : forall mtu st b h0 h1 body, 4 <= mtu -> h5_donl_on st = false ->
-  buf_ok mtu false b -> 0 <= h0 < 128 -> 0 <= h1 < 256 -> mtu <= zlen (h0 :: h1 :: body) ->
+  buf_ok mtu false b -> 0 <= h0 < 256 -> 0 <= h1 < 256 -> mtu < zlen (h0 :: h1 :: body) ->
   exists st1 out1 fs cs,
     h5_nalu mtu st b (h0 :: h1 :: body) = Ok (st1, mkH5Buf [] 0, out1 ++ fs) /\
     h5_flush st b = Ok (st1, out1) /\
@@ -67,6 +67,16 @@ Theorem C14_fu_lossless_partial : forall mtu st b h0 h1 body, 4 <= mtu -> h5_don
     Forall (fun c => 1 <= zlen c <= mtu - 3) cs /\ (2 <= length cs)%nat.
 Proof. exact fu_unit_lossless. Qed.
 Print Assumptions C14_fu_lossless_partial.
+
+(* "... F/layer id/TID preserved": read through the header accessors, the payload header of a
+   fragment (fu_b0 h0, h1) has the F bit, layer id and TID of the unit's header (h0, h1) and type 49,
+   for all 2^16 unit headers (F set included) *)
+Theorem C14_fu_header_preserves : forall h0 h1, 0 <= h0 < 256 -> 0 <= h1 < 256 ->
+  let hdr := h0 * 256 + h1 in
+  let fuhdr := fu_b0 h0 * 256 + h1 in
+  nh_f fuhdr = nh_f hdr /\ nh_layer_id fuhdr = nh_layer_id hdr /\ nh_tid fuhdr = nh_tid hdr /\ nh_type fuhdr = 49.
+Proof. exact fu_header_preserves. Qed.
+Print Assumptions C14_fu_header_preserves.
 
 (* H265Packet parses every such fragment to exactly those fields, and the unit's two header bytes
    are recovered from the payload header and the FU header as RFC 7798 4.4.3 prescribes *)
@@ -188,8 +198,9 @@ Example C14_parse_forms_nonvacuous :
 Proof. split; reflexivity. Qed.
 
 (* ---- AddDONL on: "the decoding-order fields are placed where RFC 7798 puts them", for every
-   sequence of units none of which needs fragmentation (a fragmented unit under AddDONL is
-   KF-C14-donl-every-fu).  The buffered units leave the payloader as exactly the RFC 7798 encoding
+   sequence of units none of which needs fragmentation ([unit_fits]: the unit and its DONL fit one packet
+   of the MTU; a fragmented unit under AddDONL is KF-C14-donl-every-fu), MTU 5 - the smallest at which
+   a unit with a DONL can be sent at all - included.  The buffered units leave the payloader as exactly the RFC 7798 encoding
    WITH decoding-order fields (Spec/Rfc7798.v [encode true]) of an aggregation packet - DONL behind
    the payload header, a one-byte DOND in front of every further unit's size - or as a single NAL
    unit packet with the DONL between payload header and payload; parsed by H265Packet with DONL
@@ -238,6 +249,21 @@ Example C14_lone_fu_repaired :
   h265_payload (mkH265Pay true false 5) 10 (Some [0; 0; 0; 1; 2; 1; 10; 11; 12; 13; 14])
   = Ok (mkH265Pay true false 6, [Own [2; 1; 0; 5; 10; 11; 12; 13; 14]]).
 Proof. split; vm_compute; reflexivity. Qed.
+
+(* D28, repaired in /repo: a unit that fits a single NAL unit packet (together with its DONL) but not
+   a fragment - 3 bytes under AddDONL at MTU 5, where a fragment has no room for payload - used to be
+   dropped; it is now sent as the single NAL unit packet it fits.  A unit of exactly MTU bytes used
+   to be cut into two FUs and is now sent whole as well (both forms are lossless). *)
+Example C14_small_mtu_donl_repaired :
+  h265_payload (mkH265Pay true false 5) 5 (Some [0; 0; 0; 1; 2; 1; 10])
+  = Ok (mkH265Pay true false 6, [Own [2; 1; 0; 5; 10]]) /\
+  Forall (unit_fits 5) (emit_nalus [0; 0; 0; 1; 2; 1; 10]) /\
+  h265_payload (mkH265Pay false false 0) 10 (Some [0; 0; 0; 1; 2; 1; 10; 11; 12; 13; 14; 15; 16; 17])
+  = Ok (mkH265Pay false false 0, [Own [2; 1; 10; 11; 12; 13; 14; 15; 16; 17]]).
+Proof.
+  split; [vm_compute; reflexivity|split; [|vm_compute; reflexivity]].
+  vm_compute. repeat (constructor; try (vm_compute; intuition (try lia; try discriminate))).
+Qed.
 
 (* KF-C14-donl-every-fu: with AddDONL every fragment carries a DONL field; H265Packet (and
    RFC 7798) read it in the first fragment only, so the payload of the second fragment decodes
